@@ -151,6 +151,36 @@ PROGFUZZ = {
               "(program text, initial facts, history)."),
         assumptions=["rustc compiles the generated crate faithfully", "the reference evaluator is correct", "pushes go to plain relations only (a caller cannot push a second row for a lattice key)"],
     ),
+    "C14": dict(
+        quick=dict(programs=48, cases=5), thorough=dict(programs=400, cases=12),
+        level="fault_enumeration",
+        rule=("Programs from the full grammar compiled with #![generate_run_timeout] (serial and ascent_par! in pools 1 and 4) x "
+              "generated inputs. Per case the full run is executed with the deadline-check counter hook in counting mode (R checks); "
+              "then EVERY k in 1..=R is a crash point: fresh instance, the k-th deadline check fires, run_timeout(1h) must return "
+              "false with a sound partial state (every tuple in the reference fixed point, every lattice value <= the final one), "
+              "and a resuming run() / run_timeout must reach exactly the reference fixed point with no duplicate rows; plus 4 "
+              "sequences of 2-4 repeated interruptions per case. evaluations = interrupted runs. A crash point is non-trivial when "
+              "the partial state holds derived tuples but not yet the whole fixed point; distinct (program, input, point)."),
+        assumptions=["the deadline can only be observed where the generated code evaluates __check_return_conditions! (the hook counts exactly those places)",
+                     "BYODS relations are not part of these programs", "rustc compiles the generated crate faithfully", "the reference evaluator is correct"],
+    ),
+    "C20": dict(
+        quick=dict(programs=30, cases=150), thorough=dict(programs=120, cases=600),
+        level="exploration",
+        proc_configs=[dict(VERIF_FIRST_POOL=1), dict(VERIF_FIRST_POOL=2), dict(VERIF_FIRST_POOL=16),
+                      dict(RAYON_NUM_THREADS=1), dict(RAYON_NUM_THREADS=3), dict(VERIF_FIRST_POOL=2, RAYON_NUM_THREADS=3)],
+        rule=("Scenarios (proptest vec of 2-5 instances, shrunk as one value) over one compiled batch of programs from the full "
+              "grammar in serial and ascent_par! form: every instance is constructed in a pool, loaded, then run / pushed to / run "
+              "again, each step in its own pool drawn from {global, custom 1,2,3,4,8,16, nested (custom pool entered from a worker of "
+              "another)}; all instances start their first run together from a barrier on std threads. Each scenario set runs in "
+              "fresh processes whose first use of ascent (which fixes the process-wide shard count) happens in a pool of 1, 2 or 16 "
+              "threads and under RAYON_NUM_THREADS unset / 1 / 3. Oracle: every instance's relations after each run equal the "
+              "reference evaluator's result on what that instance was given (hence what it computes alone), with the row-multiset "
+              "check; panics (shard-count asserts, frozen / unfrozen unwraps) are violations. Non-trivial: a parallel instance is "
+              "involved and either >= 2 overlapping instances use different pool sizes or its construction / run pools differ in "
+              "size; distinct scenarios."),
+        assumptions=["thread interleavings are sampled, not enumerated", "rustc compiles the generated crate faithfully", "the reference evaluator is correct"],
+    ),
 }
 
 
@@ -199,12 +229,21 @@ def progfuzz(prop, tier, seed, replay=None):
     res_path = os.path.join(out, "result.json")
     if os.path.exists(res_path):
         os.remove(res_path)
-    pr = sh([exe, "--prop", prop, "--tier", tier, "--seed", str(seed),
-             "--cases", str(tcfg["cases"]), "--out", res_path], check=False)
-    if pr.returncode != 0 and not os.path.exists(res_path):
-        sys.stderr.write(pr.stdout[-4000:])
-        raise Inconclusive("runner exited with %d" % pr.returncode)
-    results = [json.load(open(res_path))]
+    results = []
+    for pc in cfg.get("proc_configs", [dict()]):
+        if os.path.exists(res_path):
+            os.remove(res_path)
+        extra = {k: str(v) for k, v in pc.items()}
+        pr = sh([exe, "--prop", prop, "--tier", tier, "--seed", str(seed),
+                 "--cases", str(tcfg["cases"]), "--out", res_path], check=False, extra_env=extra)
+        if not os.path.exists(res_path):
+            sys.stderr.write(pr.stdout[-4000:])
+            raise Inconclusive("runner exited with %d (%s)" % (pr.returncode, pc))
+        r = json.load(open(res_path))
+        if pc:
+            r["distribution"] = {k: v for k, v in r["distribution"].items()}
+            r["distribution"]["process_config:" + ",".join("%s=%s" % kv for kv in sorted(pc.items()))] = r["evaluations"]
+        results.append(r)
     return dict(replay=False, results=results, plan=plan, wall=time.time() - t0, cfg=cfg, tcfg=tcfg)
 
 
